@@ -33,7 +33,7 @@ pub assume_specification[ <U256 as core::cmp::PartialEq>::eq ](a: &U256, b: &U25
 //@dropped merge: the three `Packed x _` arms (Packed x DynamicArray|Bytes, Packed x Packed, Packed x Word) are R-OPAQUE: replaced by an external_body stand-in with NO postcondition (itertools sorted_by_key/unique/collect_vec, closures, fresh type-variable allocation through &mut TypeCheckerState); nothing is claimed for any operand pair with a Packed side (their delegating arms `(DynamicArray|Bytes|Word, Packed) => merge(right, left, ..)` stay verbatim and are covered by the termination measure only)
 //@dropped merge: the two `panic!("Equalities should not exist…", x.clone())` arms are R-CALL to a stand-in with `requires false`; `Equal` operands are excluded by merge's precondition (C14), the call site in `unify` is not under contract in this unit
 //@dropped TypeExpression::conflict_with: closure + Vec::extend, assumed to return a `Conflict` (A-CALLEE); the payload clause of DESIGN §6 C15 ("conflicts contains both sides") is NOT proved
-//@dropped TypeExpression::{numeric, unsigned_word, signed_word, bytes, eq, mapping, dyn_array, packed_of, struct_of, is_type_constructor}, Display impls, Span accessors: not under contract in this unit
+//@dropped TypeExpression::{numeric, unsigned_word, signed_word, bytes, eq, mapping, dyn_array, packed_of, struct_of}, Display impls, Span accessors: not under contract in this unit
 //@dropped unify (fixpoint, population loops, fold over HashSet): not under contract (C14 termination/one-type-per-variable are not decided, DESIGN §6 C14)
 
 // =================================================================================================
@@ -235,6 +235,15 @@ reason: impl Into<String>
 reason: &str
 //@spec
         ensures r is Conflict,       //@ob C15.mg.te.conflict
+//@end
+
+//@extract file=src/tc/expression.rs path="impl TypeExpression|fn is_type_constructor" props=C01,C03,C14
+//@ret r
+//@spec
+        ensures
+            // the infinite-type guard of abi_type_for_impl cuts a cycle only at a type constructor, so EVERY expression that
+            // can contain a type variable (and hence close a cycle) must answer true — otherwise the conversion recurses forever
+            r == (self is FixedArray || self is Mapping || self is DynamicArray || self is Equal || self is Packed),     //@ob C01.mg.te.is_type_constructor.every_variable_carrying_constructor C03.mg.te.is_type_constructor.every_variable_carrying_constructor
 //@end
 
     // A-CALLEE: `conflict_with` gathers both sides (flattening nested conflicts) through a `&mut`
